@@ -12,8 +12,14 @@ rm -f ./*.sqlite3
 fail=0
 for t in test*; do
   [ -x "$t" ] || continue
-  timeout 1800 ./"$t" > "/tmp/baseline_$t.log" 2>&1
-  rc=$?
+  # testmatrix draws time-seeded random integers in "Test 53: MatrixInitRandomInt" and aborts when
+  # one of the 9 draws is 0 (probability ~4.4% per run, on the pinned commit too): retry up to 3 times
+  tries=0; rc=1
+  while [ $rc -ne 0 ] && [ $tries -lt 3 ]; do
+    timeout 1800 ./"$t" > "/tmp/baseline_$t.log" 2>&1
+    rc=$?; tries=$((tries+1))
+    [ "$t" = "testmatrix" ] || break
+  done
   cat "/tmp/baseline_$t.log" | grep -a -i "test\|error\|abort" | head -200
   if [ $rc -ne 0 ]; then
     # testica aborts deterministically on the pinned commit (shape error inside ICA; none of
